@@ -1,6 +1,7 @@
 import MJ.Model.Num
 import MJ.Model.NumLex
 import MJ.Model.NumF
+import MJ.Model.NumX
 /-! Line driver for C08: `<op> <A> [<B>]` → `case<TAB>model<TAB>spec`.
 
 * model: result of the Lean model of the engine (`i:<dec>` / `err:InvalidOperation`), `skip` for
@@ -138,6 +139,166 @@ def testOp (name : String) : Option MJ.NumF.CmpOp :=
   | some arm => [MJ.NumF.CmpOp.lt, .le, .gt, .ge, .eq, .ne].find? (fun o => MJ.NumF.armName o == arm)
   | none => none
 
+/-- any operand the round-5 model knows: integer of any form, `Bool`, float -/
+def parseX (tok : String) : Option MJ.NumX.XOpnd :=
+  match tok.splitOn ":" with
+  | ["bool", v] => if v = "1" then some (.bool true) else if v = "0" then some (.bool false) else none
+  | _ =>
+    match parseN tok with
+    | some (.f64 b) => some (.float b)
+    | _ =>
+      match parseOperand tok with
+      | some (.val (.ok r), _) => some (.int r)
+      | _ => none
+
+def xToI : MJ.NumX.XOpnd → Option MJ.NumX.IOpnd
+  | .int r => some (.int r)
+  | .bool b => some (.bool b)
+  | .float _ => none
+
+def xToV (x : MJ.NumX.XOpnd) : MJ.Val.V :=
+  match x with
+  | .bool b => .bool b
+  | _ => .num x.toN
+
+def xIsBool : MJ.NumX.XOpnd → Bool
+  | .bool _ => true
+  | _ => false
+
+def xIsFloat : MJ.NumX.XOpnd → Bool
+  | .float _ => true
+  | _ => false
+
+/-- the comparison instructions on values that may be `Bool`s (C07's `Ord` / `PartialEq` model) -/
+def cmpOpV (op : MJ.NumF.CmpOp) (a b : MJ.Val.V) : Bool :=
+  match op with
+  | .lt => MJ.Cmp.cmpV a b == .lt
+  | .le => MJ.Cmp.cmpV a b != .gt
+  | .gt => MJ.Cmp.cmpV a b == .gt
+  | .ge => MJ.Cmp.cmpV a b != .lt
+  | .eq => MJ.Cmp.eqV .btree a b
+  | .ne => !MJ.Cmp.eqV .btree a b
+
+def showV : MJ.Val.V → String
+  | .bool b => showBool b
+  | .num n => showN n
+  | _ => "other"
+
+def hexByte (a b : Char) : Option Nat :=
+  match hexDigit a, hexDigit b with
+  | some x, some y => some (x * 16 + y)
+  | _, _ => none
+
+def unhexBytes : List Char → Option (List UInt8)
+  | [] => some []
+  | a :: b :: rest =>
+    match hexByte a b, unhexBytes rest with
+    | some v, some t => some (v.toUInt8 :: t)
+    | _, _ => none
+  | _ => none
+
+/-- `str:<hex of the UTF-8 bytes>` -/
+def parseStrTok (tok : String) : Option (List Char) :=
+  match tok.splitOn ":" with
+  | ["str", h] =>
+    match unhexBytes h.toList with
+    | some bs => (String.fromUTF8? (ByteArray.mk bs.toArray)).map (·.toList)
+    | none => none
+  | _ => none
+
+def parseFOp (s : String) : Option MJ.NumX.FOp :=
+  if s = "add" then some .add else if s = "sub" then some .sub else if s = "mul" then some .mul
+  else if s = "div" then some .div else none
+
+def isBinName (s : String) : Bool :=
+  s = "add" || s = "sub" || s = "mul" || s = "fdiv" || s = "rem" || s = "pow"
+
+def opOfName (s : String) : Option Op :=
+  if s = "add" then some .add else if s = "sub" then some .sub else if s = "mul" then some .mul
+  else if s = "fdiv" then some .floordiv else if s = "rem" then some .rem
+  else if s = "pow" then some .pow else none
+
+/-- the round-5 streams: `Bool` operands, float arithmetic, `/`, float `**`, tests, `round(p)`,
+    strings -/
+def handleX (fields : List String) : Option String :=
+  match fields with
+  | ["f_strint", a] => (parseStrTok a).map (fun cs => showRes (MJ.NumX.intOfStr cs))
+  | ["f_strfloat", a] =>
+    (parseStrTok a).map (fun cs => match MJ.NumX.floatOfStr cs with
+      | some b => showBits b
+      | none => "err:InvalidOperation")
+  | ["neg", a] =>
+    match parseX a with
+    | some (.bool _) => some "err:InvalidOperation"
+    | _ => none
+  | ["t_odd", a] => (parseX a).map (fun x => showBool (MJ.NumX.isOdd x))
+  | ["t_even", a] => (parseX a).map (fun x => showBool (MJ.NumX.isEven x))
+  | ["t_divby", a, b] =>
+    match parseX a, parseX b with
+    | some x, some y => some (showBool (MJ.NumX.isDivisibleBy x y))
+    | _, _ => none
+  | ["f_int", a] =>
+    match parseX a with
+    | some (.bool b) => some (showRes (.ok (MJ.NumX.intOfBool b)))
+    | _ => none
+  | ["f_float", a] =>
+    match parseX a with
+    | some (.bool b) => some (showBits (MJ.NumX.floatOfBool b))
+    | _ => none
+  | ["f_abs", a] =>
+    match parseX a with
+    | some (.bool _) => some "err:InvalidOperation"
+    | _ => none
+  | ["f_round", a] =>
+    match parseX a with
+    | some (.bool _) => some "err:InvalidOperation"
+    | _ => none
+  | ["f_roundp", a, b] =>
+    match parseX a, parseX b with
+    | some (.int r), some (.int _) => some (showRes (MJ.NumX.roundInt r none))
+    | some (.float x), some (.int p) =>
+      if MJ.Num.InI128 p.val ∧ -2147483648 ≤ p.val ∧ p.val ≤ 2147483647 then
+        (MJ.NumX.roundF x p.val).map showBits
+      else none
+    | some (.bool _), some (.int _) => some "err:InvalidOperation"
+    | _, _ => none
+  | ["f_sum", a, b] =>
+    match parseX a, parseX b with
+    | some x, some y => if xIsBool x || xIsBool y then some "err:InvalidOperation" else none
+    | _, _ => none
+  | [op, a, b] =>
+    match parseX a, parseX b with
+    | some x, some y =>
+      let anyBool := xIsBool x || xIsBool y
+      let anyFloat := xIsFloat x || xIsFloat y
+      match parseCmp op with
+      | some c => if anyBool then some (showBool (cmpOpV c (xToV x) (xToV y))) else none
+      | none =>
+        if op = "f_min" ∨ op = "f_max" then
+          if anyBool then
+            let (va, vb) := (xToV x, xToV y)
+            let gt := MJ.Cmp.cmpV va vb == .gt
+            some (showV (if op = "f_min" then (if gt then vb else va) else (if gt then va else vb)))
+          else none
+        else if op = "div" ∨ (anyFloat ∧ (op = "add" ∨ op = "sub" ∨ op = "mul")) then
+          match parseFOp op with
+          | some f => (MJ.NumX.arithF f x.toN y.toN).map showBits
+          | none => none
+        else if anyFloat ∧ op = "pow" then
+          match MJ.NumX.powF x.toN y.toN with
+          | .bits r => some (showBits r)
+          | .nan => some "f:nan"
+          | .unknown => none
+        else if anyFloat ∧ (op = "rem" ∨ op = "fdiv") ∧ anyBool then
+          (if op = "rem" then MJ.NumF.remF x.toN y.toN else MJ.NumF.intDivF x.toN y.toN).map showBits
+        else if anyBool ∧ ¬ anyFloat then
+          match opOfName op, xToI x, xToI y with
+          | some o, some ia, some ib => some (showRes (MJ.NumX.binopX o ia ib))
+          | _, _, _ => none
+        else none
+    | _, _ => none
+  | _ => none
+
 /-- chained comparisons and the other implementations of the comparison operators -/
 def handleImpl (fields : List String) : Option String :=
   match fields with
@@ -172,6 +333,9 @@ def handleImpl (fields : List String) : Option String :=
 
 /-- cases outside the integer fragment: comparisons, float `//` `%`, float unary minus, filters -/
 def handleExtra (fields : List String) : Option String :=
+  match handleX fields with
+  | some m => some m
+  | none =>
   match handleImpl fields with
   | some m => some m
   | none =>
@@ -238,10 +402,10 @@ def specBin (op : Op) (a b : Int) : String :=
     else if a.natAbs ≤ 1 then
       -- 0, 1, -1 to any power, without computing with a huge exponent
       let e : Int := if a = 0 then (if b = 0 then 1 else 0) else if a = 1 then 1 else if b % 2 = 0 then 1 else -1
-      showSpec true false e (inr && decide (b < 4294967296))
+      showSpec true false e inr
     else
       let e := op.denote a b
-      showSpec true false e (inr && decide (InI128 e) && decide (b < 4294967296))
+      showSpec true false e (inr && decide (InI128 e))
   | _ =>
     let e := op.denote a b
     showSpec true false e (inr && decide (InI128 e))
